@@ -19,6 +19,11 @@ FUNCS = {
     "crypto_scalarmult/curve25519/sandy2x/curve25519_sandy2x.c": ["crypto_scalarmult_curve25519_sandy2x"],
     "crypto_scalarmult/curve25519/ref10/x25519_ref10.c": ["crypto_scalarmult_curve25519_ref10", "has_small_order"],
 }
+# whole files (macro headers that are #included into a function body, generic code instantiated by several backends): name "*"
+WHOLE = {
+    "C03": ["crypto_stream/chacha20/dolbeau/u0.h", "crypto_stream/chacha20/dolbeau/u1.h", "crypto_stream/chacha20/dolbeau/u4.h", "crypto_stream/chacha20/dolbeau/u8.h",
+            "crypto_stream/chacha20/dolbeau/chacha20_dolbeau-avx2.c", "crypto_stream/chacha20/dolbeau/chacha20_dolbeau-ssse3.c"],
+}
 OWNER = {"poly1305": "C04", "fe25519": "C05", "crypto_scalarmult": "C05", "has_small_order": "C05"}
 
 
@@ -47,6 +52,10 @@ def compute(repo):
         for n in names:
             b = body(txt, n)
             out["%s:%s" % (rel, n)] = hashlib.sha256(b.encode()).hexdigest()[:24] if b else "MISSING"
+    for owner, rels in WHOLE.items():
+        for rel in rels:
+            p = os.path.join(repo, "src", "libsodium", rel)
+            out["%s:*%s" % (rel, owner)] = hashlib.sha256(strip(open(p).read()).encode()).hexdigest()[:24] if os.path.exists(p) else "MISSING"
     return out
 
 
@@ -57,7 +66,7 @@ def changed(repo, prop=None):
     res = []
     for k, v in pins.items():
         fn = k.split(":")[1]
-        owner = next((o for pre, o in OWNER.items() if fn.startswith(pre)), None)
+        owner = fn[1:] if fn.startswith("*") else next((o for pre, o in OWNER.items() if fn.startswith(pre)), None)
         if prop and owner != prop:
             continue
         if cur.get(k) != v:
